@@ -117,6 +117,22 @@ func c12Roundtrip(p vbase.Params, r *vbase.Result) {
 			}
 			w.StoreAll(blk)
 			blocks = append(blocks, blk)
+			// content identity: a block that differs only in how the same bytes are distributed over its commands (as a
+			// peer can send it on the wire) is a different block - different bytes-to-sign, different hash
+			if k == 0 {
+				d1, d2 := rng.Bytes(rng.Range(0, 6)), rng.Bytes(rng.Range(0, 6))
+				two, merged, names := AmbiguousBatchTwins(uint32(rng.Range(1, 3)), uint64(rng.Range(1, 9)), d1, uint32(rng.Range(1, 3)), uint64(rng.Range(1, 9)), d2)
+				tb := hotstuff.NewBlock(parent.Hash(), parentQC, two, view, proposer)
+				for ti, mb := range merged {
+					tpb := hotstuffpb.BlockToProto(tb)
+					tpb.Commands = mb
+					twin := hotstuffpb.BlockFromProto(wire(tpb, &hotstuffpb.Block{}))
+					r.Obs("content_twins_compared", 1)
+					if twin.Hash() == tb.Hash() || bytes.Equal(twin.ToBytes(), tb.ToBytes()) {
+						fail("block", "content-collision", fmt.Sprintf("two blocks with different commands (%d commands vs 1 command whose data embeds the second header as %s) have the same bytes-to-sign / hash", len(two.Commands), names[ti]))
+					}
+				}
+			}
 			// round trip of the block
 			pb := hotstuffpb.BlockToProto(blk)
 			back := hotstuffpb.BlockFromProto(wire(pb, &hotstuffpb.Block{}))
